@@ -928,10 +928,24 @@ def site_corpus_cases():
 SITE_CONTINUATIONS = [" c]", " x", " x)", " x }", " }", " )", " ]", " c] }", " T", " T }", " int", "; }", " {}", " {} }", " x, y", " = 1", ": x }", " 1"]
 
 
+def long_token_cases():
+    """the unexpected token is a long identifier / string / raw string / number / comment-adjacent token made of
+    1-, 2-, 3- and 4-byte characters at every byte alignment (the error value is formatted for display)"""
+    out = []
+    for ch in ("a", "\u00e9", "\u65e5", "\U00020000"):
+        for n in (1, 10, 21, 31, 32, 33, 63, 64, 65, 66, 100, 127, 128, 129, 255, 256, 257, 300, 1000):
+            for align in ("", "a", "ab", "abc"):
+                body = align + ch * n
+                for tok in (body, '"' + body + '"', "`" + body + "`", "'" + ch + "'", "1" + "0" * n):
+                    out.append(pfam.Case("package p\nvar x = 1 " + tok + "\n", "F-err-long-token"))
+                    out.append(pfam.Case("package p\n\nfunc f() {\n\treturn\n}\n" + tok, "F-err-long-token"))
+    return out
+
+
 def fam_err(run):
     progs, hit, labels = pfam.gen_programs(seed_of(run), budget(run, 150, 1200))
     return pfam.damaged_cases(progs) + pfam.soup_cases(seed_of(run), budget(run, 500, 5000)) + site_corpus_cases() + \
-        [c for c in pfam.text_mutants()]
+        [c for c in pfam.text_mutants()] + long_token_cases()
 
 
 check_c16 = parser_check(
@@ -1016,7 +1030,7 @@ def check_c02(run, replay):
 
 def c02_extra(run, fam, gv, gm):
     witness_findings(run, gv, lambda k, w, l: not l.startswith("OK "))
-    gc = golden_cases()
+    gc = golden_cases() + pfam.tparam_cases() + [pfam.Case(c.src, "F-valid") for c in pfam.type_position_cases()]
     for c in gc:
         c.family = "F-valid"
     impl_g, mod_g, _ = fam.exec(gc)
@@ -1204,7 +1218,7 @@ def check_c14(run, replay):
                 printed.append(goprint.print_file(pfam.tree_of(l)))
             except goprint.PrintError as e:
                 printed.append("\x00unprintable: %s" % e)
-        pcases = [pfam.Case(p, "F-printed", note=c.src) for (c, l), p in zip(acc, printed)]
+        pcases = [pfam.Case(p, "F-printed", note=c.src, style=c.family) for (c, l), p in zip(acc, printed)]
         for pc, (c, l) in zip(pcases, acc):
             pc.expected = pfam.proj_shape(l)
         impl2, mod2, toks2 = fam.exec(pcases)
@@ -1218,6 +1232,15 @@ def check_c14(run, replay):
             if sh != pc.expected:
                 return "re-parsing the printed tree gives another tree: %s; original source: %r" % (
                     pfam.sexpr.first_diff(pc.expected, sh), pc.note[:300])
+            # nothing that distinguishes two programs is missing from the tree: for programs that are valid by
+            # construction the printed tree spells the same token sequence as the source (up to comments, semicolons,
+            # commas before a closing bracket and import grouping)
+            if pc.style in ("F-valid", "F-directed"):
+                a, b = pfam.program_tokens(pc.note), pfam.program_tokens(pc.src)
+                if a != b:
+                    i = next((i for i, (x, y) in enumerate(zip(a, b)) if x != y), min(len(a), len(b)))
+                    return "the printed tree is another program than the source: source ...%s... printed ...%s..." % (
+                        " ".join(a[max(0, i - 4):i + 5]), " ".join(b[max(0, i - 4):i + 5]))
             return None
         fam.judge(pcases, impl2, mod2, toks2, "shape", oracle, "print and re-parse reproduces the tree")
         return pcases
@@ -1230,6 +1253,8 @@ def check_c14(run, replay):
     progs, hit, labels = pfam.gen_programs(seed_of(run), budget(run, 300, 2000))
     cases = pfam.valid_cases(progs, ("random",)) + pfam.mutant_cases(progs, 6) + pfam.soup_cases(seed_of(run), budget(run, 2000, 20000))
     cases += directed_programs()
+    cases += [pfam.Case(c.src, "F-directed") for c in pfam.type_position_cases()] + \
+        [pfam.Case("package p\n" + sn + "\n", "F-directed") for sn in pfam.POS_SNIPPETS + pfam.EDIT_SNIPPETS]
     small, _, _ = pfam.gen_programs(seed_of(run) + 7, budget(run, 40, 300), budgets=(8, 12, 15))
     cases += pfam.systematic_mutants(small)
     impl, mod, toks = fam.exec(cases)
